@@ -179,6 +179,9 @@ def mentioned(spec, e, acc=None):
 
 
 def con_mentioned(spec, con):
+    if con["k"] == "m":
+        d = var_decl(spec, con["lhs"][1])
+        return set(element_names(d))
     if con["k"] == "s":
         s = mentioned(spec, con["lhs"])
         mentioned(spec, con["rhs"], s)
@@ -463,6 +466,19 @@ def build_con(m, con):
         if con["sense"] == ">=":
             return lhs >= rhs
         return lhs.eq(rhs)
+    if con["k"] == "m":
+        # element-wise constraints between a matrix (or its transpose) and a number / array
+        import numpy as np
+
+        M = m.vars[con["lhs"][1]]
+        if con["lhs"][0] == "mT":
+            M = M.T
+        rhs = con["rhs"] if isinstance(con["rhs"], (int, float)) else np.array(con["rhs"], dtype=float)
+        if con["sense"] == "<=":
+            return M <= rhs
+        if con["sense"] == ">=":
+            return M >= rhs
+        return M.eq(rhs)
     lhs = build_vec(m, con["lhs"])
     if con["sense"] == "<=":
         return lhs <= con["rhs"]
@@ -630,7 +646,16 @@ def eval_expr(spec, e, pt, pv=None):
 
 def con_violations(spec, con, pt, pv=None):
     """List of violation amounts (>= 0) of a pool constraint at pt."""
-    if con["k"] == "s":
+    if con["k"] == "m":
+        d = var_decl(spec, con["lhs"][1])
+        R, C = (d["rows"], d["cols"]) if con["lhs"][0] == "mat" else (d["cols"], d["rows"])
+        vals = []
+        for i in range(R):
+            for j in range(C):
+                name = mel_name(d, i, j) if con["lhs"][0] == "mat" else mel_name(d, j, i)
+                r = con["rhs"] if isinstance(con["rhs"], (int, float)) else con["rhs"][i][j]
+                vals.append(pt[name] - r)
+    elif con["k"] == "s":
         vals = [eval_expr(spec, con["lhs"], pt, pv) - eval_expr(spec, con["rhs"], pt, pv)]
     else:
         vals = [x - con["rhs"] for x in eval_vec(spec, con["lhs"], pt, pv)]
